@@ -205,6 +205,17 @@ func c06Run(c core.Case) *core.Result {
 				r.Violate("roundtrip|"+cls, "parsed record differs: %s\nline: %.600s", d, line)
 				break
 			}
+			// the same line without a header: references are then known by
+			// name only and belong to no header
+			var bare sam.Record
+			if err := bare.UnmarshalSAM(nil, L); err != nil {
+				r.Violate("parse|headerless-rejects", "UnmarshalSAM(nil, line): %v\n%.600s", err, line)
+				break
+			}
+			if L3, err := bare.MarshalSAM(ff); err != nil || string(L3) != line {
+				r.Violate("roundtrip|headerless-line-changed", "format→parse without header→format changed the line (err %v):\n%.600s\n%.600s", err, line, L3)
+				break
+			}
 			if !seen[line] {
 				seen[line] = true
 				if len(rec.Aux) > 1 && len(rec.Cigar) > 0 {
